@@ -22,13 +22,14 @@ import (
 )
 
 type urule struct {
-	id         string // stable identity in the universe
-	file       string
-	kind, name string
-	expr       string
-	usesMetric []string // metric names selected by a vector selector
-	usesAlert  []string // alertnames selected with an equality matcher on ALERTS / ALERTS_FOR_STATE
+	id          string // stable identity in the universe
+	file        string
+	kind, name  string
+	expr        string
+	usesMetric  []string // metric names selected by a vector selector
+	usesAlert   []string // alertnames selected with an equality matcher on ALERTS / ALERTS_FOR_STATE
 	usesAlertRe []string // alertnames selected with a regexp matcher (permissive cell)
+	top         bool     // written at the top of its file (same line numbers as the first rule of the other file)
 }
 
 type exprChoice struct {
@@ -93,6 +94,9 @@ func body(c *explore.Chooser) *explore.Case {
 	}
 	extra := c.Free(nextra, "extra-providers")
 	extraName := []string{"none", "second recording rule A in the other file", "alerting rule named A", "second alerting rule D in the other file"}[extra]
+	// the extra provider sits at the end of its file or at its top, where it occupies the same line numbers as
+	// the provider of the same kind in the other file
+	extraTop := extra != 0 && c.Free(2, "extra-provider-on-top") == 1
 	switch extra {
 	case 1:
 		uni = append(uni, urule{id: "A2", file: "rules/two.yml", kind: "recording", name: "A", expr: "sum(up) by (x, y)"})
@@ -100,6 +104,10 @@ func body(c *explore.Chooser) *explore.Case {
 		uni = append(uni, urule{id: "alertA", file: "rules/two.yml", kind: "alerting", name: "A", expr: "up == 1"})
 	case 3:
 		uni = append(uni, urule{id: "D2", file: "rules/two.yml", kind: "alerting", name: "D", expr: "up == 2"})
+	}
+	if extraTop {
+		uni[len(uni)-1].top = true
+		extraName += " (at the top of the file)"
 	}
 	// removal: subset mask, at least one rule removed; second-commit mask for a split removal
 	mask := 1 + c.Free((1<<len(uni))-1, "removed-subset")
@@ -120,9 +128,11 @@ func body(c *explore.Chooser) *explore.Case {
 	}
 	filesOf := func(skip map[string]bool) map[string][]urule {
 		m := map[string][]urule{}
-		for _, r := range uni {
-			if !skip[r.id] {
-				m[r.file] = append(m[r.file], r)
+		for _, top := range []bool{true, false} {
+			for _, r := range uni {
+				if !skip[r.id] && r.top == top {
+					m[r.file] = append(m[r.file], r)
+				}
 			}
 		}
 		return m
@@ -156,7 +166,7 @@ func body(c *explore.Chooser) *explore.Case {
 	repo.Commit("remove rest")
 
 	input := map[string]any{"rules": describe(uni), "removed": removedIDs, "two_commits": split == 1, "extra": extraName}
-	cs := &explore.Case{Input: input, Key: fmt.Sprint(describe(uni), removedIDs, split)}
+	cs := &explore.Case{Input: input, Key: fmt.Sprint(describe(uni), removedIDs, split, extraTop)}
 	if err := os.Chdir(dir); err != nil {
 		panic(err)
 	}
@@ -300,7 +310,7 @@ var tier string
 func main() {
 	explore.Main(&explore.Config{
 		Property: "C20", Level: "exploration",
-		Rule: "rule universe: recording provider A and alert D in file one, three consumers (two alerts, one recording rule) in files one/two whose expressions range over {no reference, sum(A), ALERTS{alertname=\"D\"}, an expression with several ALERTS and metric selectors where the interesting one is not first} (thorough adds A, ALERTS_FOR_STATE, both, a regexp alertname matcher, rate+absent), optionally a second provider A or an alert named A (thorough: also a second alert D) in the other file; x every non-empty subset of rules removed on the branch (files vanish when emptied) (thorough: x removal in one or two commits); real git repository, real finders, real rule/dependency check under the ci command; compared with the generator's reference dependency graph: warning iff dependants remain and no same-kind same-name replacement remains, and the listed dependants are exactly the dependants",
+		Rule:        "rule universe: recording provider A and alert D in file one, three consumers (two alerts, one recording rule) in files one/two whose expressions range over {no reference, sum(A), ALERTS{alertname=\"D\"}, an expression with several ALERTS and metric selectors where the interesting one is not first} (thorough adds A, ALERTS_FOR_STATE, both, a regexp alertname matcher, rate+absent), optionally a second provider A or an alert named A (thorough: also a second alert D) in the other file; x every non-empty subset of rules removed on the branch (files vanish when emptied) (thorough: x removal in one or two commits); real git repository, real finders, real rule/dependency check under the ci command; compared with the generator's reference dependency graph: warning iff dependants remain and no same-kind same-name replacement remains, and the listed dependants are exactly the dependants",
 		Assumptions: []string{"alertname=~ selectors are a permissive cell: pint counts equality matchers only, the property speaks of selecting 'with its alertname'", "default configuration, offline"},
 		Spaces: []*explore.Space{{Name: "removals", Body: body, Bound: func(string) int { return -1 }, Setup: func(t string) {
 			tier = t
